@@ -84,14 +84,17 @@ type Dir struct {
 	Meddle  bool // C15: a second task calls Set* and getters while operations are in flight
 
 	// model (scheduler only)
-	mUsers  []dEntry
-	mGroups []dEntry
-	mAnon   bool
-	opsDone int
-	started bool
-	failed  string
-	d       *testdirectory.Directory
-	stopped bool
+	mUsers   []dEntry
+	mGroups  []dEntry
+	mAnon    bool
+	opsDone  int
+	inflight int // index of the operation in flight, -1 none
+	faults   int
+	dead     map[int]bool
+	started  bool
+	failed   string
+	d        *testdirectory.Directory
+	stopped  bool
 }
 
 const (
@@ -283,6 +286,10 @@ func cloneAll(es []dEntry) []dEntry {
 
 func (d *Dir) Setup(s *Sim) {
 	d.mUsers, d.mGroups, d.mAnon = cloneAll(d.Users), cloneAll(d.Groups), d.Anon
+	d.inflight, d.dead = -1, map[int]bool{}
+	if s.Ch.Choose(3) == 2 {
+		d.faults = 1
+	}
 	s.W.Go("driver", func() { d.drive(s.W) })
 	if d.Meddle {
 		s.W.Go("meddler", func() {
@@ -387,6 +394,7 @@ func (d *Dir) drive(w *simrt.World) {
 	for i := range d.Ops {
 		op := &d.Ops[i]
 		simrt.Park("task", "d-op", nil)
+		simrt.Emit("d-op-start", i, 0, 0, 0, op.Kind, nil)
 		res := &dResult{}
 		var conn *ldap.Conn
 		if op.Client < len(d.Clients) {
@@ -515,7 +523,29 @@ func (d *Dir) probe(w *simrt.World, kind string, valid *tls.Config) (int, string
 
 func (d *Dir) Gate(p *simrt.Parked) bool { return true }
 
-func (d *Dir) Actions(s *Sim, acts []Action) []Action { return acts }
+// Actions: the one fault of S-dir is a client whose connection is reset while
+// its search is being answered (read-only, so the reference store is not
+// affected); afterwards that client is dead and the others must still be served.
+func (d *Dir) Actions(s *Sim, acts []Action) []Action {
+	if d.faults <= 0 || d.inflight < 0 || d.inflight >= len(d.Ops) || d.Prop == "C19" || d.Prop == "C18" {
+		return acts
+	}
+	op := d.Ops[d.inflight]
+	if !strings.HasPrefix(op.Kind, "search") || op.Client >= len(d.Clients) || d.dead[op.Client] || len(d.Clients) < 2 {
+		return acts
+	}
+	cl := d.Clients[op.Client]
+	if cl.ep == nil {
+		return acts
+	}
+	return append(acts, Action{Class: clsFault, Key: fmt.Sprintf("fault-reset dir-client %d", op.Client), Weight: s.WFault, Do: func() {
+		s.Logf("FAULT reset of directory client %d during its search", op.Client)
+		s.Fault("F4-client-reset")
+		d.faults--
+		d.dead[op.Client] = true
+		cl.ep.Reset()
+	}})
+}
 
 func (d *Dir) OnDelivered(s *Sim, ep *simrt.Conn) {}
 
@@ -557,8 +587,14 @@ func (d *Dir) OnEvent(s *Sim, e *simrt.Event) {
 		if d.failed == "" {
 			d.failed = e.Kind + ": " + e.S
 		}
+	case "d-op-start":
+		d.inflight = e.Conn
 	case "d-op":
 		d.opsDone++
+		d.inflight = -1
+		if op := d.Ops[e.Conn]; op.Client < len(d.Clients) && d.dead[op.Client] && e.A != 0 && e.A != 32 && e.A != 49 && e.A != 68 {
+			return // the operation of a client whose connection was reset: not judged
+		}
 		if d.Lean || d.Meddle {
 			return // race build / meddler: the sequential model does not apply
 		}
